@@ -25,6 +25,15 @@ func (db *DB) verifEvent(name string, txid common.Txid) {
 		return
 	}
 	f := map[string]any{"txid": uint64(txid), "ps": db.pageSize}
+	if name == "BeginRead" || name == "EndRead" {
+		// Readers hold only metalock: the reader registry is protected by it, the
+		// free and pending sets (owned by the writer) are not.
+		if db.freelist != nil {
+			f["readers"] = fl.VerifReaders(db.freelist)
+		}
+		common.VerifEvent(db, name, f)
+		return
+	}
 	if db.freelist != nil {
 		free, pend, readers := fl.VerifSnapshot(db.freelist)
 		f["free"] = free
